@@ -537,6 +537,34 @@ theorem keep_body (env : Env) (name : Nat) (ks : List Tree) (K : List (List (Nat
     exact ddAttrs_congr _ _ _ _ (dpWalkList_values env ks _)
   · exact wrList_removeOwn env _ _ _ (hkids hw)
 
+/-- An element, given the frames below the push of its declarations as pushes onto frames `S`, `S'`
+    that satisfy the invariants (the serialiser's own frames, or the frames of
+    `namespaces_in_scope` of the element's parent when serialisation starts at the element). -/
+theorem keep_element (env : Env) (name : Nat) (ks : List Tree) (K : List (List (Nat × Nat)))
+    (S S' W₀ W₀' : List (Nat × Nat))
+    (hnd : ((Tree.node (.element name) ks).nsDecls.map Prod.fst).Nodup) (hK : KW K S')
+    (hI : DdInv env (.node (.element name) ks) S S') (h3 : DdInv3 S S')
+    (hQ : IsPush false S (Tree.node (.element name) ks).nsDecls
+      (pushTop W₀ (Tree.node (.element name) ks).nsDecls))
+    (hQ' : IsPush false S' (dpKeep env K (.node (.element name) ks))
+      (pushTop W₀' (dpKeep env K (.node (.element name) ks))))
+    (hkids : ∀ W₁ W₁', KW (dpKeep env K (.node (.element name) ks) :: K) W₁' →
+      (∀ k ∈ ks, DdInv env k W₁ W₁') → DdInv3 W₁ W₁' → wr.wrList env W₁ ks = true →
+      wr.wrList env W₁' (dpWalk.dpWalkList env (dpKeep env K (.node (.element name) ks) :: K) ks) = true)
+    (hw : wr env W₀ (.node (.element name) ks) = true) :
+    wr env W₀' (dpWalk env K (.node (.element name) ks)) = true := by
+  have hI₁ := DdInv.push (K := K) (x := .node (.element name) ks) rfl hnd hK hI hQ hQ'
+    (fun hs => by cases hs)
+  have h3₁ := DdInv3.push h3 hQ hQ'
+  have hK₁ := hK.push hQ'
+  rw [wr_element, Bool.and_eq_true] at hw
+  have hb := keep_body env name ks K _ _ hI₁ h3₁
+    (fun hwk => hkids _ _ hK₁ (fun k hk => hI₁.kid hk) h3₁ hwk) hw.1 hw.2
+  have hd := nsDecls_dpWalk env K (.element name) ks rfl hnd
+  rw [dpWalk_element] at hb hd ⊢
+  rw [wr_element, hd, Bool.and_eq_true]
+  exact hb
+
 mutual
 theorem keep_wr (env : Env) : ∀ (x : Tree) (K : List (List (Nat × Nat))) (W W' : List (Nat × Nat)),
     UniqueDeclsBelow x → KW K W' → DdInv env x W W' → DdInv3 W W' →
@@ -547,19 +575,8 @@ theorem keep_wr (env : Env) : ∀ (x : Tree) (K : List (List (Nat × Nat))) (W W
     by_cases he : v.isElement = true
     · obtain ⟨name, rfl⟩ := (isElement_iff_ex v).1 he
       have hnd := hu.self (t := .node (.element name) ks) rfl
-      have hp := IsPush.pushTop W (Tree.node (.element name) ks).nsDecls
-      have hp' := IsPush.pushTop W' (dpKeep env K (.node (.element name) ks))
-      have hI₁ := DdInv.push (K := K) (x := .node (.element name) ks) rfl hnd hK hI hp hp'
-        (fun hs => by cases hs)
-      have h3₁ := DdInv3.push h3 hp hp'
-      have hK₁ := hK.push hp' 
-      rw [wr_element, Bool.and_eq_true] at hw
-      have hb := keep_body env name ks K _ _ hI₁ h3₁
-        (fun hwk => keep_wr_list env ks _ _ _ hukids hK₁ (fun k hk => hI₁.kid hk) h3₁ hwk) hw.1 hw.2
-      have hd := nsDecls_dpWalk env K (.element name) ks rfl hnd
-      rw [dpWalk_element] at hb hd ⊢
-      rw [wr_element, hd, Bool.and_eq_true]
-      exact hb
+      exact keep_element env name ks K W W' W W' hnd hK hI h3 (IsPush.pushTop _ _) (IsPush.pushTop _ _)
+        (fun W₁ W₁' hK₁ hI₁ h3₁ hwk => keep_wr_list env ks _ W₁ W₁' hukids hK₁ hI₁ h3₁ hwk) hw
     · have he' : v.isElement = false := by simpa using he
       rw [wr_nonElement env W v ks he'] at hw
       have hwalk : dpWalk env K (.node v ks) = .node v (dpWalk.dpWalkList env K ks) := by
